@@ -147,7 +147,8 @@ def run(ctx):
         kinds_hist[kind] = kinds_hist.get(kind, 0) + 1
         # ---- model correspondence
         m = parse_ev(mr)
-        if m["kind"] == "unsupported" or mr == "OK pong":
+        if m["kind"] == "unsupported" or mr == "OK pong" or (mr or "").startswith("OK (evalupto (noitem)"):
+            # outside the fragment, or a position inside a function body (prev_call_args: not modelled)
             n_unsup += 1
         elif m["kind"] != "ok":
             ctx.disagree("evalupto", inp, m.get("raw"), i.get("res"), detail="model gave no answer")
@@ -156,7 +157,8 @@ def run(ctx):
             diff = None
             if i["res"] != m["res"]:
                 diff = "answer kind: impl %s / model %s" % (i["res"], m["res"])
-            elif i["res"] == "value" and (i["short"], i["display"]) != (m["short"], m["display"]):
+            elif i["res"] == "value" and (i["short"] != m["short"] or (
+                    i["display"] != m["display"] and not re.match(r"^(fn:|bi:|clo|C:)", i["short"]))):
                 diff = "value: impl %s / model %s" % (i["display"], m["display"])
             elif i["res"] == "error" and i["err"] != m["err"] and not i["err"].startswith("unclassified"):
                 diff = "error: impl %s / model %s" % (i["err"], m["err"])
@@ -222,22 +224,30 @@ def run(ctx):
         lines.append("machine %s - 2000000 - notrace" % hexs(new))
         meta.append((pi, off, i, kind, new))
     res = [MC.parse_resp(r) for r in ctx.garden_batch(lines, timeout=1200)]
-    n_or = n_or_skip = 0
+    n_or = n_or_skip = n_uneval = 0
     for (pi, off, i, kind, new), r in zip(meta, res):
         if r["kind"] in ("parse-error", "other", "died"):
             n_or_skip += 1
             continue
         n_or += 1
         obs = [l[4:] for l in r.get("out", "").split("\n") if l.startswith("OBS:")]
-        if not obs:
-            ctx.fail("C27/value-but-never-evaluated/%s" % kind,
-                     "eval-up-to reported %r for a %s expression that the instrumented run never evaluates "
-                     "(run ended with %s)" % (i["display"], kind, r.get("outcome")),
+        if not obs and r["kind"] == "ok":
+            # the run finishes without ever evaluating the expression (dead branch, loop not entered)
+            n_uneval += 1
+            ctx.fail("C27/value-for-unevaluated-expression",
+                     "eval-up-to reported %r for a %s expression that is never evaluated when the item runs (the run "
+                     "finishes normally): the value of the whole item is reported at the expression's position"
+                     % (i["display"], kind), src=progs[pi], offset=off, instrumented=new)
+        elif not obs:
+            ctx.fail("C27/value-but-run-failed-before/%s" % kind,
+                     "eval-up-to reported %r for a %s expression, but the instrumented run fails (%s) before "
+                     "evaluating it" % (i["display"], kind, r.get("outcome")),
                      src=progs[pi], offset=off, instrumented=new)
         elif obs[0] != i["display"]:
             ctx.fail("C27/wrong-value/%s" % kind,
                      "eval-up-to reported %r but the expression's first value in the run is %r" % (i["display"], obs[0]),
                      src=progs[pi], offset=off, instrumented=new)
+    ctx.cov["oracle_expression_never_evaluated"] = n_uneval
     ctx.cov["oracle_instrumented_runs"] = n_or
     ctx.cov["oracle_skipped_unparsable_instrumentation"] = n_or_skip
 
@@ -272,6 +282,8 @@ def run(ctx):
         last = [l for l in so.split("\n") if l.strip()]
         n_cli += 1
         want = ": " + i["display"]
+        if "verif_input.gdn" in want or "<closure" in want or "<fun" in want:
+            continue      # these displays contain the file name
         if rc != 0 or not last or not last[-1].endswith(want):
             # a caret line inside a multi-line expression can change the parse; only report clear mismatches
             if rc == 0 and last and re.search(r":\d+: ", last[-1]) and not se.strip():
